@@ -12,7 +12,8 @@ THEOREMS = ["GoaktVerif.C25." + t for t in [
     "dispSerialize_first", "dispSerialize_unsupported", "dispDeserialize_sound",
     "dispatch_roundtrip", "agree_needed", "resolveDoc_unshadowed", "C25_refuted", "C25_partial",
     "poison_roundtrip", "poison_only_magic", "terminated_roundtrip", "env_roundtrip",
-    "delivery_roundtrip", "delivery_invalid",
+    "delivery_roundtrip", "delivery_invalid", "delivery_roundtrip_wire",
+    "WireLemmas.unvarint_varint", "WireLemmas.parseFields_encFields", "WireLemmas.decEnv_encEnv",
     "framed_not_terminated", "framed_not_poison", "framed_not_delivery", "envelopes_disjoint", "C25_envelopes",
 ]]
 INPKG = ["internal/remoteclient/zz_verif_c25.go", "actor/zz_verif_c25.go", "internal/commands/zz_verif_c25.go"]
@@ -26,7 +27,8 @@ MANIFEST = {
                   "(dispatch_roundtrip); the chosen entry is the first whose type test passes (resolve_first); an unsupported "
                   "message yields an error, never bytes (send_unsupported, dispSerialize_unsupported, proto_rejects_nonproto, "
                   "delivery_invalid); frames and envelopes round-trip byte-exactly (unframe_frame, terminated_roundtrip, "
-                  "poison_roundtrip, env_roundtrip, delivery_roundtrip) and cannot capture each other's bytes (framed_not_*, "
+                  "poison_roundtrip, env_roundtrip, delivery_roundtrip; delivery_roundtrip_wire with a concrete protobuf wire codec whose "
+                  "round trip is itself proved, WireLemmas.decEnv_encEnv) and cannot capture each other's bytes (framed_not_*, "
                   "envelopes_disjoint). The documented rule 'exact concrete type first' is refuted for the code (C25_refuted, "
                   "finding C25-F1) and proved under the guard shadowed=false (C25_partial).",
     "level_note": "PARTIAL: protobuf, CBOR (fxamacker) and JSON (sonic) are parameters; their round-trip and mutual-rejection laws "
